@@ -155,10 +155,12 @@ def at_abs(mask, X, Y):
 
 @contract(COMPOUND + '.to_mask', props=['C02', 'C08', 'C13'])
 class compound_to_mask:
-    cases = {op: {'op': op} for op in OPS}
+    """the mask of a compound is the operation applied to the operand masks - whatever the compound's own include flag says (the flag
+    complements membership answers, not masks: C08)"""
+    cases = {op + ('' if inc == 'absent' else '-own-include-flag'): {'op': op, 'inc': inc} for op in OPS for inc in ('absent', 'bool')}
 
-    def setup(B, op='and_'):
-        return dict(self=compound(B, 'c', anyregion(B, 'r1'), anyregion(B, 'r2'), op), op=op)
+    def setup(B, op='and_', inc='absent'):
+        return dict(self=compound(B, 'c', anyregion(B, 'r1'), anyregion(B, 'r2'), op, inc), op=op)
     pre = lambda self: is_bbox(self.region1.bounding_box) and is_bbox(self.region2.bounding_box)
     call = lambda self: self.to_mask(mode='center')
     forall = {'X': 'int', 'Y': 'int'}
@@ -226,7 +228,7 @@ def nested_ellipse_extents(self):
     return True
 
 
-@contract(ELLIPSE_ANN + '.to_mask', props=['C02', 'C08', 'C13'])
+@contract(ELLIPSE_ANN + '.to_mask', props=['C02', 'C08', 'C13', 'C04'])
 class ellipse_annulus_to_mask:
     def setup(B):
         return dict(self=asym_annulus(B, 'r', ELLIPSE_ANN))
@@ -244,7 +246,7 @@ class ellipse_annulus_to_mask:
     }
 
 
-@contract(RECT_ANN + '.to_mask', props=['C02', 'C08', 'C13'])
+@contract(RECT_ANN + '.to_mask', props=['C02', 'C08', 'C13', 'C04'])
 class rectangle_annulus_to_mask:
     def setup(B):
         return dict(self=asym_annulus(B, 'r', RECT_ANN))
@@ -300,3 +302,31 @@ class circle_mask_follows_assignment:
                      ux(mode), n_eff(mode, subpixels), self.radius), ux(mode))),
         'masks_do_not_share_their_array': lambda result: result[0].data is not result[1].data,
     }
+
+
+# ---------------------------------------------------------------------------- the mask grid holds every member pixel
+# (the pixelwise clauses above speak about the pixels OF the mask; that no member pixel centre lies outside the mask grid - so that
+# mask.to_image(shape) is the membership of every image pixel, not only of those inside the grid - is the enclosure clause of C04
+# restated for the box the mask carries)
+@contract(ELLIPSE + '.to_mask', props=['C02'])
+class no_member_lies_outside_the_mask_grid:
+    cases = {'circle': {'kind': 'circle', 'unit': 'deg'}}
+    cases.update({k + '-' + un: {'kind': k, 'unit': un} for k in ('ellipse', 'rectangle') for un in ('deg', 'rad', 'arcmin')})
+
+    def setup(B, kind='ellipse', unit='deg'):
+        r = circle(B, 'r') if kind == 'circle' else (ellipse(B, 'r', 'absent', unit) if kind == 'ellipse' else rectangle(B, 'r', 'absent', unit))
+        return dict(self=r, kind=kind)
+    pre = lambda self, kind: circle_ok(self) if kind == 'circle' else ellipse_ok(self)
+    call = lambda self: self.to_mask('center')
+    forall = {'x': 'real', 'y': 'real'}
+    post = {'members_are_inside_the_grid': lambda self, kind, result, x, y: _member_covered(self, kind, result.bbox, x, y)}
+
+
+def _member_covered(self, kind, bb, x, y):
+    from contracts.c04_bbox import covers, ellipse_enclosed
+    from spec.geometry import disk_closed, rect_closed, cs
+    if kind == 'circle':
+        return implies(disk_closed(self.center.x, self.center.y, self.radius, x, y), covers(bb, x, y))
+    if kind == 'ellipse':
+        return ellipse_enclosed(self.center.x, self.center.y, self.width, self.height, self.angle, bb, x, y)
+    return implies(rect_closed(self.center.x, self.center.y, self.width, self.height, cs(self.angle)[0], cs(self.angle)[1], x, y), covers(bb, x, y))
